@@ -32,6 +32,9 @@ pub enum GenerateError {
     /// We expect all input constant buffers to have been transformed into struct / global pairs already
     ConstantBuffersNotSimplified,
 
+    /// Bindings can only be placed in the argument buffers we declare for the entry point
+    UnsupportedArgumentBuffer(u32),
+
     /// Unable to generate a valid ast for a type with an array modifier in this position
     ComplexTypeBind,
 
